@@ -6,6 +6,7 @@
   (TE/Gen/States.lean, see TE/Props/C09.lean for the checker and its soundness).
 -/
 import TE.Lemmas.ClassSM
+import TE.Props.C09
 namespace TE.C10
 open TE
 
@@ -38,6 +39,22 @@ theorem reset_then_eq_fresh (m : Impl B S O) (h : Hist B) (s₀ : S) (hh : eval 
 theorem reset_then_out_eq_fresh (m : Impl B S O) (h : Hist B) (s₀ : S) (hh : eval m h = .ok s₀)
     (k : Hist B) : (eval m (graft (.reset h) k) >>= m.out) = (eval m (graft .fresh k) >>= m.out) := by
   rw [reset_then_eq_fresh m h s₀ hh k]
+
+/-- object level: if `reset()` puts the registered part back to the default and its
+    override re-initialises the unregistered part, the reset object *is* a fresh one,
+    so every continuation produces the same outputs. -/
+theorem reset_obj_eq_fresh {R U Op Out : Type} (sem : ObjSem R U Op Out) (fresh : Obj R U)
+    (resetU : U → U) (hU : ∀ u, resetU u = fresh.unreg) (o : Obj R U) (cont : List Op) :
+    sem.outputs (resetObj fresh.reg resetU o) cont = sem.outputs fresh cont := by
+  have : resetObj fresh.reg resetU o = fresh := by
+    cases fresh; simp [resetObj] at hU ⊢; exact hU o.unreg
+  rw [this]
+
+/-- generated obligation (translator: harness/translators/states.py): in every
+    class, each plain attribute written after construction is re-initialised by
+    the class's `reset()` override — the premise `hU` above. -/
+theorem reset_restores_unregistered : Gen.classAttrs.all C09.resetSafe = true :=
+  C09.resetSafe_table
 
 /-- non-vacuity -/
 example : graft (Hist.reset (Hist.update .fresh 3)) (Hist.update .fresh (5 : Nat)) =
